@@ -11,6 +11,10 @@ Case grammar sent to `drv_serial`:
     FTOK <float bits, hex> <token>       what Python's `json` writes for that float (`float.__repr__`, NaN, Infinity, -Infinity)
     JMIN / JPRETTY <hex of the text>     `to_json(minify=True)` / `to_json()` of the message data
     HDESC <desc> / HB <hex> / HJMIN / HJPRETTY <hex of the text>     the header class, a header, `Message(header, data).to_json`
+    HOP N <cls> <hex> | C <cls> <sizeof cls> <src> | CE <cls> <sizeof cls> <src> | V <src> <off> <size> <cls>
+        | W <dst> <off> <hex> | M <hdr> <data>       a storage script run on real ctypes objects (ids in creation order):
+                                         new object, `cls.copy(src)`, the same raising ValueError, nested-struct view,
+                                         memmove into an object, `Message.copy`;   HRD <id> <cls> <hex>  bytes at the end
     FD <probe> <hex of from_dict(v) | err> <val>     `from_dict` on the dictionary itself (`self`), on what json.loads
                                          gives back (`json`), and on altered ones (strings as lists of characters, a key
                                          missing, a struct-array list too short / too long, a value of the wrong shape)
@@ -248,6 +252,85 @@ def _trip(fn) -> str:
         return "err:" + type(e).__name__
 
 
+def heap_script(W: VC.World, cls, m, rng, is_msg: bool) -> List[str]:
+    """a random script of copies / views / writes / Message.copy on real ctypes objects; `m` is restored at the end"""
+    from pyrtma.message import Message, get_header_cls
+    b0 = bytes(m)
+    objs: List[Any] = []           # keeps every object alive: no buffer is ever freed and reused
+    lines: List[str] = []
+
+    def tid(c) -> int:
+        return W.tid_for(c)
+
+    def add(o):
+        objs.append(o)
+        return len(objs) - 1
+    fresh = cls.from_buffer_copy(b0)                     # object 0: same class and bytes as m, storage of its own
+    add(fresh)
+    lines.append(f"HOP N {tid(cls)} {VC.hx(b0)}")
+    hdrs: List[int] = []
+    if is_msg:
+        for tc in (False, True):
+            hc = get_header_cls(tc)
+            h = hc()
+            h.msg_type, h.num_data_bytes, h.send_time, h.version = cls.type_id, ctypes.sizeof(cls), 0.5, cls.type_hash
+            hdrs.append(add(h))
+            lines.append(f"HOP N {tid(hc)} {VC.hx(bytes(h))}")
+    small = W.structs[1]
+    for _ in range(rng.randrange(6, 14)):
+        k = rng.randrange(len(objs))
+        o = objs[k]
+        n = ctypes.sizeof(o)
+        r = rng.random()
+        if r < 0.3:
+            add(type(o).copy(o))
+            lines.append(f"HOP C {tid(type(o))} {n} {k}")
+        elif r < 0.4:
+            # a copy as another class: the first sizeof(class) bytes, or ValueError if the source is smaller
+            other = rng.choice([small, W.N, cls])
+            z = ctypes.sizeof(other)
+            try:
+                c = other.copy(o)
+                add(c)
+                lines.append(f"HOP C {tid(other)} {z} {k}")
+            except ValueError:
+                lines.append(f"HOP CE {tid(other)} {z} {k}")
+        elif r < 0.55:
+            subs = []
+            for name, fty, off in W.fields(type(o)):
+                if fty[0] == "strct":
+                    subs.append((name, None, off, fty[2], W.structs[fty[1]]))
+                elif fty[0] == "arr" and isinstance(fty[2], tuple):
+                    i = rng.randrange(fty[3])
+                    subs.append((name, i, off + i * fty[2][2], fty[2][2], W.structs[fty[2][1]]))
+            if subs:
+                name, i, off, sz, sc = rng.choice(subs)
+                v = getattr(o, name) if i is None else getattr(o, name)[i]
+                if ctypes.addressof(v) != ctypes.addressof(o) + off:
+                    raise C.MachineryError("a nested struct is not where the field table says")
+                add(v)
+                lines.append(f"HOP V {k} {off} {sz} {tid(sc)}")
+        elif r < 0.9 or not hdrs:
+            ln = rng.randrange(1, min(n, 6) + 1)
+            off = rng.randrange(0, n - ln + 1)
+            data = bytes(rng.randrange(256) for _ in range(ln))
+            ctypes.memmove(ctypes.addressof(o) + off, data, ln)
+            lines.append(f"HOP W {k} {off} {VC.hx(data)}")
+        else:
+            hk = rng.choice(hdrs)
+            dks = [i for i, x in enumerate(objs) if type(x) is cls]
+            dk = rng.choice(dks)
+            mc = Message.copy(Message(objs[hk], objs[dk]))
+            hdrs.append(add(mc.header))
+            add(mc.data)
+            lines.append(f"HOP M {hk} {dk}")
+    for i, o in enumerate(objs):
+        lines.append(f"HRD {i} {tid(type(o))} {VC.hx(bytes(o))}")
+    if bytes(m) != b0:
+        raise C.MachineryError("the storage script touched the message under test")
+    return lines
+
+
 def run_timecode_case(cid: str, cls, m) -> List[str]:
     """header-plus-data JSON and the dict round trip of the header when the header class is the time-code variant
     (a case of its own: the driver reports the first false clause of a case only)"""
@@ -417,5 +500,6 @@ def run_case(cid: str, cls, m) -> List[str]:
     except Exception as e:  # noqa: BLE001
         lines.append("RT copy err:" + type(e).__name__)
     lines.append(f"COPY {shares}")
+    lines += heap_script(W, cls, m, vr, is_msg)
     lines.append("END")
     return lines
